@@ -69,6 +69,18 @@ def plan(tier, seed):
               pick(rng, [None, "PrimalDualHybridGradient", "ADMM"]),
               batch=pick(rng, [None, None, 1, 2]), w=pick(rng, ["none", "none", "kspace"]),
               oseed=int(rng.integers(1 << 30)))
+    # directed: every solver whose step size is estimated from the operator norm, with coil maps
+    # of very small / large magnitude; and total-variation recon with lamda > 0 on unit-rss
+    # maps (an encoding operator whose norm is small compared with that of the gradient)
+    for i in range(16 if quick else 200):
+        P.add("recon", app="sense" if i % 2 else "tv",
+              img=[int(pick(rng, [2, 4])) for _ in range(2)], nc=int(rng.integers(2, 5)),
+              traj=pick(rng, ["cart", "cart-mask"]), lam=float(10 ** rng.uniform(-1.5, -0.3)),
+              solver=pick(rng, ["GradientMethod", "GradientMethod",
+                                "PrimalDualHybridGradient"]) if i % 2
+              else None, batch=None, w="none",
+              msc=pick(rng, [1e-5, 1e-4, 1e3]) if i % 2 else None,
+              oseed=int(rng.integers(1 << 30)) * 3)
     return P.cases
 
 
@@ -252,7 +264,10 @@ def run_recon(case):
         # maps normalised to unit root-sum-of-squares (as ESPIRiT delivers them): an encoding
         # operator of modest norm
         mps = mps / np.sqrt(np.sum(np.abs(mps) ** 2, axis=0, keepdims=True))
-    if case["app"].startswith("sense") and case["oseed"] % 5 == 2 and case["solver"] != "ADMM":
+    if case.get("msc"):
+        mps = mps * case["msc"]
+        xt = xt / case["msc"]
+    elif case["app"].startswith("sense") and case["oseed"] % 5 == 2 and case["solver"] != "ADMM":
         # (ADMM's default penalty rho = 1 is not scale-free: its iteration budget is stated for
         # operators of ordinary norm)
         # maps of very small / large magnitude: the reconstruction scales inversely
@@ -286,6 +301,8 @@ def run_recon(case):
         ksp = ksp * ks
         xt = xt * ks
     lam = case["lam"]
+    if case.get("msc"):
+        lam = lam * case["msc"] ** 2      # the regulariser scales with the operator: same problem
     solver = case["solver"]
     sig = "|".join(map(str, ["recon", app, nd, traj, "w" if w is not None else "-", "ks%g" % ks,
                              "lam%g" % lam if app.startswith("sense") else "lam",
